@@ -1,4 +1,5 @@
 import Jose.Lemmas.IO
+import Jose.Grid.C07
 /-
   C07 — IO chains: result independent of chunking; failures and bounds propagate.
   Property theorems only (helpers in Jose/Lemmas/IO.lean).  Statements are about
@@ -399,5 +400,14 @@ example : Linear 1 (.b64enc (.probe (some 1))) ∧
     1 < calls (run (.b64enc (.probe (some 1))) [[1, 2, 3], [4, 5, 6]]).1 ∧
     (run (.b64enc (.probe (some 1))) [[1, 2, 3], [4, 5, 6]]).2 = false := by
   refine ⟨.b64enc .probe, by decide, by decide⟩
+
+
+/-! ### the model is the code, on a grid regenerated from the code on every run
+
+  `Jose/Grid/C07.lean` is rewritten by the translator (tools/extract_tables.py) on every run: it holds what
+  lib/io.c and lib/b64.c **built from the current working tree** did on chains built from the public constructors without OpenSSL/zlib stages (base64url encoder and decoder, any/all multiplexers incl. empty ones, malloc, file and fixed-size buffer sinks, failing probe sinks): every composition of every input length 0..5 into feed calls for two kinds of data over twelve chain shapes, and every failure position 0..3 of a probe under seven wrappers, byte-wise and in one feed — verdict of every feed and of done, bytes in every sink, calls seen by every probe.
+  The theorem is checked by the kernel (`decide +kernel`: evaluation of the chain model, no axiom). -/
+theorem model_is_code_on_grid : Jose.Grid.C07.chunks.all (fun c => c.all Jose.Driver.agrees) = true := by
+  decide +kernel
 
 end Jose.Props.C07
